@@ -186,6 +186,70 @@ def extras(T):
     return count, viol
 
 
+def work_sparse(part):
+    """n nodes, at most `maxe` edges over kinds {hard, weak, loop_control}
+    (no self-loops), the first edge at off-diagonal position `first`;
+    judged with the loop_control oracle: no crash, CycleError only if
+    hard+loop_control is cyclic (weak edges never cause an error), a cycle of
+    hard edges always reported, output a permutation, hard edges respected,
+    deterministic."""
+    T = _T()
+    _, n, maxe, first = part
+    offd = [(i, j) for i in range(n) for j in range(n) if i != j]
+    counts, viol, nontriv = {}, [], 0
+    for k in range(1, maxe + 1):
+        for rest in itertools.combinations(range(first + 1, len(offd)),
+                                           k - 1):
+            pos = (first,) + rest
+            for kinds in itertools.product((1, 2, 4), repeat=k):
+                hard = [offd[p] for p, kd in zip(pos, kinds) if kd == 1]
+                weak = [offd[p] for p, kd in zip(pos, kinds) if kd == 2]
+                ctrl = [offd[p] for p, kd in zip(pos, kinds) if kd == 4]
+                g = {i: T.DepGraphEntry(
+                    item=i, deps={j for (a, j) in hard if a == i},
+                    weak_deps={j for (a, j) in weak if a == i},
+                    loop_control={j for (a, j) in ctrl if a == i})
+                    for i in range(n)}
+                v = None
+                try:
+                    out = T.sort(g)
+                    err = None
+                except T.CycleError as e:
+                    out, err = None, e
+                except Exception as e:
+                    out, err = None, None
+                    v = ('sparse-crash', f'{type(e).__name__}: {e}')
+                if v is None:
+                    hc = has_cycle(n, hard)
+                    hcc = has_cycle(n, hard + ctrl)
+                    if err is not None:
+                        cls = 'cycle-reported'
+                        if not hcc:
+                            v = ('sparse-spurious-cycle', str(err))
+                    elif hc:
+                        cls = 'cyclic'
+                        v = ('sparse-missed-cycle', out)
+                    else:
+                        cls = 'sorted'
+                        p_ = {x: i for i, x in enumerate(out)}
+                        if sorted(out) != list(range(n)):
+                            v = ('sparse-not-permutation', out)
+                        elif any(p_[a] < p_[b] for a, b in hard):
+                            v = ('sparse-hard-violated', out)
+                        elif T.sort(g) != out:
+                            v = ('sparse-nondeterministic', out)
+                    counts[cls] = counts.get(cls, 0) + 1
+                if weak and ctrl and hard:
+                    nontriv += 1
+                if v is not None and len(viol) < 50:
+                    assign = [0] * (n * n)
+                    for p, kd in zip(pos, kinds):
+                        a, b = offd[p]
+                        assign[a * n + b] = kd
+                    viol.append((n, assign, v[0], repr(v[1])))
+    return counts, viol, nontriv
+
+
 def partitions(ctx):
     parts = []
     for n in (1, 2):
@@ -209,6 +273,12 @@ def partitions(ctx):
                 'weak} complete (3^16)'
         for p in itertools.product((0, 1, 2), repeat=5):
             parts.append((4, (0, 1, 2), p))
+    # sparse graphs on 5 nodes (6 in thorough) with hard / weak /
+    # loop_control edges
+    sn, se = (5, 5) if ctx.quick else (6, 5)
+    bound += f'; n={sn} with <= {se} edges x {{hard,weak,loop_control}}'
+    for first in range(sn * (sn - 1)):
+        parts.append(('sparse', sn, se, first))
     k = ctx.seed % len(parts)
     return parts[k:] + parts[:k], bound
 
@@ -216,6 +286,8 @@ def partitions(ctx):
 def work_any(part):
     if part[0] == '4nd':
         return work_4nd()
+    if part[0] == 'sparse':
+        return work_sparse(part)
     return work(part)
 
 
@@ -279,6 +351,17 @@ def replay(ctx, data):
         return
     n = data['n']
     pairs = [(i, j) for i in range(n) for j in range(n)]
+    if 4 in data['assign']:
+        offd = [(i, j) for i in range(n) for j in range(n) if i != j]
+        first = min(offd.index((i // n, i % n))
+                    for i, k in enumerate(data['assign']) if k)
+        c, viol, _ = work_sparse(('sparse', n, sum(
+            1 for k in data['assign'] if k), first))
+        for vn, assign, kind, detail in viol:
+            if assign == list(data['assign']):
+                print('replay:', kind, detail)
+                ctx.violation(f'{kind}|n={n}|{assign}', detail, data)
+        return
     cls, v = judge(T, n, pairs, data['assign'])
     print('replay outcome:', cls, v)
     if v is not None:
